@@ -1277,7 +1277,7 @@ Definition op_ok (s : mstate) (o : op) : Prop :=
   match o with
   | OSet _ (Some tgt) init _ _ => In tgt (t_objs (m_topo s)) /\ match init with Some l => loc_ok (m_topo s) l | None => True end
   | ORetopo t' => shrinks (m_topo s) t'
-  | OISet _ _ _ _ _ _ | OXml _ | OXmlNoMem _ => False
+  | OISet _ _ _ _ _ _ | OXml _ | OXmlNoMem _ | OXmlFromNoMem _ => False
   | _ => True
   end.
 
@@ -1347,6 +1347,7 @@ Proof.
   - destruct K.
   - now apply retopo_Inv.
   - now apply dup_Inv.
+  - destruct K.
   - destruct K.
   - destruct K.
 Qed.
@@ -1640,6 +1641,7 @@ Proof.
     apply in_map_iff in Hb. destruct Hb as [a [<- Ha]]. rewrite Forall_forall in H. exact (H a Ha).
   - destruct K.
   - destruct K.
+  - destruct K.
 Qed.
 
 Lemma run_AllOk s ops : AllOk s -> hist_ok s ops -> AllOk (run s ops).
@@ -1909,12 +1911,12 @@ Proof.
   - destruct (set_core_imp false s id (g_type g) (g_gp g) None (g_val g) I Hg) as [A B]. split; [assumption|congruence].
 Qed.
 
-Lemma xml_import_attr_imp s t e :
-  imp_ok s t -> Forall (fun g => g_gp g <> MEMATTR_GP_NONE) (a_tgs (snd e)) -> imp_ok (xml_import_attr s e) t.
+Lemma xml_import_attr_imp predef s t e :
+  imp_ok s t -> Forall (fun g => g_gp g <> MEMATTR_GP_NONE) (a_tgs (snd e)) -> imp_ok (xml_import_attr predef s e) t.
 Proof.
   intros H Hg. unfold xml_import_attr. destruct e as [id a]. cbn [snd] in Hg.
-  destruct ((id =? HWLOC_MEMATTR_ID_CAPACITY) || (id =? HWLOC_MEMATTR_ID_LOCALITY)); [assumption|].
-  destruct ((id <? HWLOC_MEMATTR_ID_MAX) && _); [assumption|].
+  destruct (a_conv a); [assumption|].
+  destruct (predef && (id <? HWLOC_MEMATTR_ID_MAX) && _); [assumption|].
   assert (X : forall s1 i, imp_ok s1 t ->
      imp_ok (fold_left (fun s g => xml_import_values s i (need_init a) g) (a_tgs a) s1) t).
   { intros s1 i. revert s1. induction Hg as [|g l Hgg Hl IH]; intros s1 H1; [assumption|].
@@ -1953,12 +1955,12 @@ Qed.
 (* the state after export + import + end of load *)
 Lemma xml_switch_Inv s t' : Inv s -> wf_topo t' -> Inv (xml_switch s t') /\ AllOk (xml_switch s t').
 Proof.
-  intros I W. unfold xml_switch.
-  set (s1 := fold_left xml_import_attr (number_from 0 (refresh_all (m_topo s) (m_attrs s))) (MS t' init_attrs)).
+  intros I W. unfold xml_switch, xml_switch_from.
+  set (s1 := fold_left (xml_import_attr true) (number_from 0 (refresh_all (m_topo s) (m_attrs s))) (MS t' init_attrs)).
   assert (H1 : imp_ok s1 t').
   { unfold s1.
     assert (X : forall l s0, Forall (fun e : N * imattr => Forall (fun g => g_gp g <> MEMATTR_GP_NONE) (a_tgs (snd e))) l ->
-               imp_ok s0 t' -> imp_ok (fold_left xml_import_attr l s0) t').
+               imp_ok s0 t' -> imp_ok (fold_left (xml_import_attr true) l s0) t').
     { induction l as [|e l IH]; intros s0 Hl H0; [assumption|]. inversion Hl; subst. cbn [fold_left]. apply IH; [assumption|].
       now apply xml_import_attr_imp. }
     apply X.
